@@ -285,7 +285,10 @@ where
     let quotient_polys = {
         let mut quotient_polys = quotient_polys;
         if let Some((index, delta)) = crate::verif_hooks::knobs::get().quotient_perturb {
-            if let Some(c) = quotient_polys.get_mut(index).and_then(|q| q.coeffs.get_mut(0)) {
+            if let Some(c) = quotient_polys
+                .get_mut(index)
+                .and_then(|q| q.coeffs.get_mut(0))
+            {
                 *c += F::from_canonical_u64(delta);
             }
         }
